@@ -240,6 +240,19 @@ def nest(kind, depth, leaf=(0x01,)):
     return pre + list(leaf) + post
 
 # ---------------------------------------------------------------- assembled case lists
+def text_positions():
+    """text content of every validity class in every position (content must never decide acceptance)"""
+    out = []
+    texts = [[0xC5], [0x80], [0xC0, 0x80], [0xED, 0xA0, 0x80], [0xF4, 0x90, 0x80, 0x80], [0xE2, 0x82], [0x61, 0xC3], [0xFF], [0xF8, 0x88, 0x80, 0x80, 0x80],
+             [0xC3, 0xA9], [0xEE, 0x80, 0x80], [0xED, 0x9F, 0xBF], [0xEF, 0xBF, 0xBF], [0xF0, 0x90, 0x80, 0x80], [0xF4, 0x8F, 0xBF, 0xBF], [0x00], []]
+    for pay in texts:
+        t = head(3, len(pay), None) + pay
+        for x in (t, [0x81] + t, [0x82, 0x01] + t, [0x9F] + t + [0xFF], [0xA1] + t + [0x01], [0xA1, 0x01] + t, [0xA1] + t + t,
+                  [0xBF] + t + [0x02, 0xFF], [0xBF, 0x02] + t + [0xFF], [0xC1] + t, [0x7F] + t + [0xFF], [0x7F, 0x61, 0x61] + t + [0xFF],
+                  [0x81, 0xA1] + t + [0x80], [0xA2, 0x01, 0x02] + t + [0x03], [0xD8, 0x20] + t):
+            out.append(x)
+    return out
+
 def load_cases(ctx):
     tier = ctx.tier
     out = []
@@ -273,6 +286,7 @@ def load_cases(ctx):
             out.append(item)
             out.append([0x82] + item + [0x01])
             out.append([0x5F if mt == 2 else 0x7F] + item + item + [0xFF])
+    out += text_positions()
     # element / pair / chunk counts around the argument-width boundaries and powers of two
     for n in (22, 23, 24, 25, 31, 32, 33, 63, 64, 65, 127, 128, 129, 255, 256, 257, 1023, 1024, 1025):
         w = 0 if n < 24 else 1 if n < 256 else 2
